@@ -237,6 +237,9 @@ def run_build(env, op):
     elif k == 'mark':
         _, ep, state = op
         env.element(ep).reservation_info = f.ReservationInfo(reservation_state=state)
+    elif k == 'rename':
+        _, ep, new_name = op
+        env.element(ep).rename(new_name)
     else:
         run_removal(env, op)
 
@@ -613,6 +616,30 @@ def gen_history(rng, flavour, nsteps, p_remove=0.12):
                         return None
                     return ['mark', ep, rng.choice(STATES)]
                 add(3, mk_mark)
+            if v.n:
+                def mk_rename():
+                    # mostly interfaces: to the name of an interface under ANOTHER service of the same node (equal names in
+                    # different scopes are legal), sometimes to a fresh name; sometimes a node / component / service
+                    r = rng.random()
+                    if r < 0.7 and cps:
+                        i = rng.choice(cps)
+                        ip = v.iface_path(i)
+                        own = v.service_of_cp(i) or ([v.service_of_cp(p)[0] for p in v.parent_cp(i) if v.service_of_cp(p)])
+                        others = [j for j in cps if j != i and ip[1] == (v.iface_path(j) or [None, None])[1]
+                                  and v.typ(j) == v.typ(i) and (v.service_of_cp(j) or [None])[0] not in own]
+                        if others and rng.random() < 0.75:
+                            return ['rename', ['if', ip], v.name(rng.choice(others))]
+                        return ['rename', ['if', ip], fresh('r')]
+                    i = rng.choice(sorted(v.n))
+                    c = v.cls(i)
+                    if c == 'NetworkNode':
+                        return ['rename', ['node', v.name(i)], fresh('n')]
+                    if c == 'Component' and v.node_of_comp(i):
+                        return ['rename', ['comp', v.name(v.node_of_comp(i)[0]), v.name(i)], fresh('c')]
+                    if c == 'NetworkService' and v.service_path(i):
+                        return ['rename', ['svc', v.service_path(i)], fresh('s')]
+                    return None
+                add(5, mk_rename)
             if v.n and rng.random() < p_remove:
                 rs = enumerate_removals(snap, flavour, rng, with_invalid=False, kept=set(env.kept))
                 if rs:
